@@ -49,6 +49,8 @@ class CallGraph:
         self.by_method: dict[str, list[FnNode]] = {}
         self.by_getter: dict[str, list[FnNode]] = {}
         self.by_setter: dict[str, list[FnNode]] = {}
+        self.fresh_store_edges: dict[str, set] = {}
+        self.plain_store_edges: dict[str, set] = {}
         self.edges: dict[str, set[str]] = {}
         self.unresolved: dict[str, set[str]] = {}
         self.registry: dict[str, list[FnNode]] = {a: [] for a in REGISTRY_ATTRS}
@@ -140,6 +142,11 @@ class CallGraph:
                     local_imports[a.asname or a.name] = (s.module, a.name)
         params = {a.arg for a in fn.args.posonlyargs + fn.args.args + fn.args.kwonlyargs}
         nested = {s.name: s for s in ast.walk(fn) if isinstance(s, ast.FunctionDef) and s is not fn}
+        try:
+            from rules_writes import fresh_locals
+            fresh_names = fresh_locals(fn, set(repo.classes))
+        except Exception:  # noqa
+            fresh_names = set()
 
         def resolve_name(name):
             if name in local_imports:
@@ -237,8 +244,13 @@ class CallGraph:
                     for t in self.by_getter.get(node.attr, []):
                         E.add(t.fid)
                 elif isinstance(node.ctx, ast.Store):
+                    # a property assignment on an object created in this very function (`obj_copy = deepcopy(self); obj_copy.parent = ..`)
+                    # runs the setter with a *new* receiver: recorded separately so that who-may-write analyses of pre-existing
+                    # objects need not follow it (the edge stays in `edges` for everything else)
+                    fresh_recv = isinstance(node.value, ast.Name) and node.value.id in fresh_names
                     for t in self.by_setter.get(node.attr, []):
                         E.add(t.fid)
+                        (self.fresh_store_edges if fresh_recv else self.plain_store_edges).setdefault(n.fid, set()).add(t.fid)
             elif isinstance(node, ast.AugAssign) and isinstance(node.target, ast.Attribute):
                 for t in self.by_getter.get(node.target.attr, []) + self.by_setter.get(node.target.attr, []):
                     E.add(t.fid)
@@ -256,6 +268,15 @@ class CallGraph:
         E.discard(n.fid) if False else None
 
     # ------------------------------------------------------------------
+    def edges_for_preexisting(self):
+        """edge map in which a setter reached *only* through assignments on objects created in the calling function is dropped"""
+        out = {}
+        for fid, ts in self.edges.items():
+            drop = self.fresh_store_edges.get(fid, set()) - self.plain_store_edges.get(fid, set())
+            # keep the edge if the same callee is also reached by a call in this function
+            out[fid] = set(ts) - {t for t in drop if t.endswith("[set]")}
+        return out
+
     def reachable(self, roots, stop=()):
         seen, todo = set(), list(roots)
         parent = {}
